@@ -108,11 +108,11 @@ func init() {
 }
 
 func init() {
-	roots := append([]string{"ReadPacket", "(*fixedHeader).ReadRemaining", "(*wuint16).UnmarshalBinary", "(*wuint32).UnmarshalBinary", "(*bindata).UnmarshalBinary",
+	roots := append([]string{"ReadPacket", "(*fixedHeader).ReadRemaining", "(*buffer).get", "(*wuint16).UnmarshalBinary", "(*wuint32).UnmarshalBinary", "(*bindata).UnmarshalBinary",
 		"(*vbint).UnmarshalBinary", "(*vbint).ReadFrom", "(*wbool).UnmarshalBinary", "(*UserProp).UnmarshalBinary"},
 		methodsOf(append(append([]string{}, packetTypes...), "Undefined"), "UnmarshalBinary")...)
 	propSpecs["C09"] = &PropSpec{ID: "C09", Roots: roots,
-		Note: "wire level: a two/four byte integer, a string or binary (prefix or body), a string pair and a variable byte integer that does not fit in the bytes given is refused; a variable byte integer continuing past four bytes is refused; a boolean byte other than 0/1 is refused. Framing level: in every property loop an identifier that is neither in that call site's table nor User Property / Subscription Identifier records an error (checked at every back edge against the evaluated table); a ghost counter of recorded errors proves for all 16 UnmarshalBinary methods that once any field decoder refused or an unknown identifier was seen the call returns a non-nil error, and ReadRemaining/ReadPacket then return (nil, err). NOT proved: that for a cut inside a field of an otherwise valid frame the decoder's cursor is at that field (this needs the reference reader; see DESIGN 9a)"}
+		Note: "wire level: a two/four byte integer, a string or binary (prefix or body), a string pair and a variable byte integer that does not fit in the bytes given is refused; a variable byte integer continuing past four bytes is refused; a boolean byte other than 0/1 is refused. Field level: buffer.get, the one primitive through which every field of every packet is read, is proved to record an error exactly when the value of the requested wire type does not fit between the cursor and the end of the frame (or is a bad boolean / incomplete variable byte integer), and to leave the cursor where it was; an earlier error is final. Framing level: in every property loop an identifier that is neither in that call site's table nor User Property / Subscription Identifier records an error (checked at every back edge against the evaluated table); a ghost counter of recorded errors proves for all 16 UnmarshalBinary methods that once any field decoder refused or an unknown identifier was seen the call returns a non-nil error, and ReadRemaining/ReadPacket then return (nil, err). NOT proved: that for a cut inside a field of an otherwise valid frame the decoder's cursor is at that field (this needs the reference reader; see DESIGN 9a)"}
 }
 
 func init() {
